@@ -59,20 +59,23 @@ def parse_date(d: Union[str, datetime, date]) -> date:
     return dateutil.parser.parse(d).date()
 
 
-@lru_cache(maxsize=512)
 def parse_datetimespec(d: Union[str, datetime, date]) -> datetime:
     """Parse a string, datetime or date into a datetime."""
+    # readings of the clock must not be cached
+    if isinstance(d, str) and d == "now":
+        return datetime.now(tz=timezone.utc)
+    elif isinstance(d, str) and d == "today":
+        return datetime.combine(date.today(), datetime.min.time(), tzinfo=timezone.utc)
+    return _parse_datetimespec(d)
+
+
+@lru_cache(maxsize=512)
+def _parse_datetimespec(d: Union[str, datetime, date]) -> datetime:
     if isinstance(d, datetime):
         if not d.tzinfo:
             d = d.replace(tzinfo=timezone.utc)
         return d
     elif isinstance(d, str):
-        if d == "now":
-            return datetime.now(tz=timezone.utc)
-        elif d == "today":
-            return datetime.combine(
-                date.today(), datetime.min.time(), tzinfo=timezone.utc
-            )
         d = dateutil.parser.parse(d)
         if not d.tzinfo:
             d = d.replace(tzinfo=timezone.utc)
